@@ -32,9 +32,17 @@ structure Heap where
   dead : List HEntry      -- backing array beyond len(h.entries)
   indices : List Nat      -- h.indices : index handed out ↦ position in entries
   maxidx : Nat            -- h.maxidx
+  keys : List (Key × Nat) -- h.keys : key ↦ index handed out for the entry tracking it (Go map, `[]` = nil map)
 deriving DecidableEq, Repr, Inhabited
 
-def Heap.empty : Heap := ⟨[], [], [], 0⟩
+def Heap.empty : Heap := { live := [], dead := [], indices := [], maxidx := 0, keys := [] }
+
+/-! the Go map `h.keys` as an association list: `v, ok := m[k]`, `delete(m, k)`, `m[k] = v` -/
+def klookup : List (Key × Nat) → Key → Option Nat
+  | [], _ => none
+  | (k', v) :: t, k => if k' = k then some v else klookup t k
+def kerase (m : List (Key × Nat)) (k : Key) : List (Key × Nat) := m.filter (·.1 != k)
+def kset (m : List (Key × Nat)) (k : Key) (v : Nat) : List (Key × Nat) := (k, v) :: kerase m k
 
 /-- heap.go `Less(i, j)`: `h.entries[i].exp < h.entries[j].exp` (both index expressions checked) -/
 def Heap.less (h : Heap) (i j : Nat) : Option Bool := do
@@ -123,8 +131,14 @@ def Heap.removeAt (h : Heap) (i : Nat) : Option (Heap × HEntry) :=
         | some h2 => h2.pop
     else h.pop
 
+/-- heap.go `removeInternal(realIdx)`: `x := heap.Remove(h, realIdx); delete(h.keys, x.key); return x.key, x.bytes` -/
+def Heap.removeInternal (h : Heap) (i : Nat) : Option (Heap × HEntry) :=
+  match h.removeAt i with
+  | none => none
+  | some (h', x) => some ({ h' with keys := kerase h'.keys x.key }, x)
+
 /-- heap.go `removeFirst` -/
-def Heap.removeFirst (h : Heap) : Option (Heap × HEntry) := h.removeAt 0
+def Heap.removeFirst (h : Heap) : Option (Heap × HEntry) := h.removeInternal 0
 
 /-- heap.go `remove(idx)` as it was before the repair: `h.removeInternal(h.indices[idx])`.
     Kept only for the witness examples in Props.lean (why the repair was needed). -/
@@ -144,9 +158,15 @@ def Heap.remove (h : Heap) (idx : Nat) (key : Key) : Option (Heap × Option Nat)
     | none => some (h, none)
     | some e =>
       if e.idx != idx || e.key != key then some (h, none)
-      else match h.removeAt p with
+      else match h.removeInternal p with
         | none => none
         | some (h', x) => some (h', some x.bytes)
+
+/-- heap.go `removeKey(key)`: `idx, ok := h.keys[key]; if !ok { return 0, false }; return h.remove(idx, key)` -/
+def Heap.removeKey (h : Heap) (key : Key) : Option (Heap × Option Nat) :=
+  match klookup h.keys key with
+  | none => some (h, none)
+  | some idx => h.remove idx key
 
 /-- heap.go `pushInternal(entry)`: `h.indices[entry.idx] = len(h.entries); h.entries = append(h.entries, entry)`
     (`append` overwrites the backing-array position right behind the slice) -/
@@ -156,7 +176,8 @@ def Heap.pushInternal (h : Heap) (e : HEntry) : Option Heap :=
   else none
 
 /-- heap.go `put(key, exp, bytes)`: steal the index of the entry `Pop` left behind when
-    `len(entries) < maxidx`, otherwise hand out `maxidx`; `pushInternal`; `heap.Fix(h, Len()-1)`. -/
+    `len(entries) < maxidx`, otherwise hand out `maxidx`; `pushInternal`; `heap.Fix(h, Len()-1)`;
+    `h.keys[key] = idx`. -/
 def Heap.put (h : Heap) (key : Key) (exp bytes : Nat) : Option (Heap × Nat) :=
   let r : Option (Heap × Nat) :=
     if h.live.length < h.maxidx then
@@ -172,7 +193,7 @@ def Heap.put (h : Heap) (key : Key) (exp bytes : Nat) : Option (Heap × Nat) :=
     | some h2 =>
       match h2.sift (h2.live.length - 1) h2.live.length with
       | none => none
-      | some h3 => some (h3, idx)
+      | some h3 => some ({ h3 with keys := kset h3.keys key idx }, idx)
 
 /-- the view of the heap through the handed-out indices: `idx ↦ entry` for indices in use -/
 def Heap.find (h : Heap) (idx : Nat) : Option HEntry :=
